@@ -20,7 +20,8 @@ ASSUMPTIONS = [
     "media types are written in lower case where the oracle is set semantics (the statement does not fix case semantics of the collapse/dedup clauses)",
     "which literal spelling of a moved type survives is not compared",
     "appending to the empty list (which means 'all' but holds no 'all' item) is observed, not predicted",
-    "item assignment / deletion are judged by the canonical-form invariants, not predicted",
+    "item assignment is predicted (the assigned query takes the place, 'all' collapses, a simple type is kept once, nothing else leaves); item deletion is judged by the canonical-form invariants",
+    "a query is a simple media type iff its text is one identifier (no 'not'/'only', no feature): the reported mediaType is compared with this text-derived classification",
 ]
 PROBES = ["append_present_type_moves", "append_to_all_rejected", "delete_absent_rejected", "malformed_query_rejects_list", "all_collapses", "list_with_comment", "restart_via_owner", "structured_query_kept"]
 
@@ -40,11 +41,22 @@ def config(rs, run, tier):
 
 def structured(r):
     parts = [r.choice(["", "", "not ", "only "]) + r.choice(SIMPLE + ["all"])] if r.random() < 0.75 else []
-    n = r.choice([1, 1, 2, 3]) if not parts else r.choice([1, 1, 2, 3]) if parts[0].split()[0] not in ("not", "only") or True else 1
+    n = r.choice([1, 1, 2, 3])
+    if parts and " " in parts[0] and r.random() < 0.45:
+        n = 0  # 'not tv' / 'only screen': no feature, yet not a simple media type
     for _ in range(n):
         f, v = r.choice(G.FEATURES + [("color", "2"), ("min-width", "1.5em"), ("device-aspect-ratio", None)])
         parts.append(f"({f}: {v})" if v else f"({f})")
     return " and ".join(parts)
+
+
+def ref_simple(text):
+    """reference classification from the text alone: a query is a simple media type iff it is one identifier -
+    no 'not' / 'only', no feature.  Returns the lower-cased type or None."""
+    t = (text or "").strip().lower().split()
+    if len(t) == 1 and "(" not in t[0] and t[0] not in ("not", "only", "and"):
+        return t[0]
+    return None
 
 
 def canon(cu, text):
@@ -57,7 +69,7 @@ def canon(cu, text):
         cu.log.raiseExceptions = mode
     if k != "ok" or not q.wellformed:
         return None
-    return (q.mediaText, (q.mediaType or "").lower() or None)
+    return (q.mediaText, ref_simple(q.mediaText))
 
 
 class World:
@@ -85,7 +97,13 @@ class World:
         self.model = self.observe()  # list of (canonical text, simple type or None)
 
     def observe(self):
-        return [(i.value.mediaText, (i.value.mediaType or "").lower() or None) for i in self.ml]
+        out = []
+        for i in self.ml:
+            text, reported = i.value.mediaText, (i.value.mediaType or "").lower() or None
+            if reported != ref_simple(text):
+                raise Viol("simple_type_classification", "mediaType", f"the query {text!r} reports mediaType {i.value.mediaType!r}; by its text it is {'the simple type ' + repr(ref_simple(text)) if ref_simple(text) else 'not a simple media type'}")
+            out.append((text, reported))
+        return out
 
     def has_all(self, m=None):
         return any(t == "all" for _, t in (self.model if m is None else m))
@@ -94,7 +112,12 @@ class World:
     def check(self, where, predicted=True):
         cu, ml = self.cu, self.ml
         self.stats["oracle"] += 1
-        k, live = lib.call(self.observe)
+        try:
+            k, live = "ok", self.observe()
+        except Viol:
+            raise
+        except Exception as e:  # noqa: BLE001
+            k, live = "exc", e
         if k != "ok":
             raise Viol("iteration_total", f"{where}:iter-raises:{lib.ename(live)}", f"iterating the list raised {live!r}")
         if predicted and [c for c, _ in live] != [c for c, _ in self.model]:
@@ -235,11 +258,26 @@ class World:
             n = len(self.model)
             if not n:
                 return "empty"
-            kk, v = lib.call(ml.__setitem__, op["i"] % n, op["q"])
-            predicted = False
-            out = "ok" if kk == "ok" else "rejected:" + lib.ename(v)
-            if kk == "ok":
+            i = op["i"] % n
+            c = canon(cu, op["q"])
+            kk, v = lib.call(ml.__setitem__, i, op["q"])
+            if kk == "exc":
+                self.stats["unexpected:setitem:" + lib.ename(v)] += 1
+                return "exc"
+            if c is None:
+                self.stats["fault:MALFORMED"] += 1
+                out = "rejected"  # unchanged (model comparison below)
+            else:
+                # the assigned query takes the place; 'all' is the only medium, a simple type is kept once -
+                # nothing else leaves the list
+                if c[1] == "all":
+                    self.model = [c]
+                else:
+                    self.model = [c if j == i else e for j, e in enumerate(self.model) if j == i or not (c[1] and e[1] == c[1])]
+                if kk != "ok":
+                    raise Viol("setitem_accepted", f"setitem:raises:{lib.ename(v)}", f"list[{i}] = {op['q']!r} raised {v!r}")
                 self.stats["accepted"] += 1
+                out = "accepted"
         elif k == "delitem":
             n = len(self.model)
             if not n:
